@@ -175,7 +175,17 @@ def wrap_int(ctype, term):
     if isinstance(term, int):
         return ((term - lo) % n) + lo
     term = zint(term)
+    bv = bv_backed(term)
+    if bv is not None and lo <= 0 and (1 << bv.size()) - 1 <= hi:
+        return term                     # BV2Int of a k-bit vector lies in [0, 2^k)
     return simp(z3.If(z3.And(term >= lo, term <= hi), term, ((term - lo) % n) + lo))
+
+
+def bv_backed(term):
+    """the bit-vector b if term is BV2Int(b) (unsigned), else None"""
+    if z3.is_app(term) and term.decl().kind() == z3.Z3_OP_BV2INT:
+        return term.arg(0)
+    return None
 
 
 # integer conversion rank for the usual arithmetic conversions
